@@ -82,7 +82,7 @@ int main(int argc, char** argv) {
                     MobilizedBody::Translation(rs.matter.updGround(), Transform(), Body::Rigid(mp), Transform());
                     rs.types.push_back(10); rs.revs.push_back(false);
                 }
-                rs.build(r, r.I(1, 3), 0);
+                rs.build(r, 1, 0);   // one ordinary body on Ground (build()'s chain numbering assumes it adds the first body)
                 emit(rs, df, r, false);
             } catch (const std::exception& e) { std::printf("SKIP %s\n", e.what()); }
         }
